@@ -80,6 +80,13 @@ class GetDescriptorHandlerDistributed(Elaboratable):
         # Collection that will store each of our descriptor-generation submodules.
         descriptor_generators = {}
 
+        # Lengths of our fixed descriptors; used to detect requests that start at (or past) their end.
+        descriptor_lengths    = {}
+
+        # Set for a single cycle when we need to answer with a zero-length packet.
+        send_zlp = Signal()
+        m.d.usb += send_zlp.eq(0)
+
         #
         # Figure out the maximum length we're willing to send.
         #
@@ -107,6 +114,8 @@ class GetDescriptorHandlerDistributed(Elaboratable):
             else:
                 generator = raw_descriptor()
             descriptor_generators[(type_number, index)] = generator
+            descriptor_lengths[(type_number, index)] = \
+                len(raw_descriptor) if isinstance(raw_descriptor, bytes) else getattr(generator, '_data_length', None)
 
             m.d.comb += [
                 generator.max_length     .eq(length),
@@ -129,14 +138,30 @@ class GetDescriptorHandlerDistributed(Elaboratable):
 
                 # If the value matches the given type number...
                 with m.Case(type_number << 8 | index):
+                    descriptor_length = descriptor_lengths[(type_number, index)]
 
-                    # ... connect the relevant generator to our output.
-                    m.d.comb += generator.stream  .attach(self.tx)
-                    m.d.usb += generator.start    .eq(self.start),
+                    # If we're asked to continue at (or past) the end of the descriptor, the previous packet
+                    # ended exactly on a packet boundary: answer with a ZLP, so the host knows we're done.
+                    # (The generator's start_position can't represent this position; it would wrap or clamp.)
+                    with m.If((self.start_position >= descriptor_length) if descriptor_length is not None else 0):
+                        m.d.usb += send_zlp.eq(self.start)
+
+                    # Otherwise ...
+                    with m.Else():
+                        # ... connect the relevant generator to our output.
+                        m.d.comb += generator.stream  .attach(self.tx)
+                        m.d.usb += generator.start    .eq(self.start),
 
             # If none of our descriptors match, stall any request that comes in.
             with m.Default():
                 m.d.comb += self.stall.eq(self.start)
+
+        # Pulse `last` without `first` to indicate a ZLP.
+        with m.If(send_zlp):
+            m.d.comb += [
+                self.tx.valid  .eq(1),
+                self.tx.last   .eq(1),
+            ]
 
 
         return m
